@@ -24,3 +24,9 @@ claim("C15",
   "Decides structural necessary conditions of C15 for every request history: a rejected request cannot have modified the recorded topology, only the three validated entry points (and the informer replay handlers) write it, no validator error is dropped, the parent link is recorded only after a validator that walks the ancestor chain and rejects self-ancestry (no cycles), and all accesses are under the topology lock. It does not decide the min-sum arithmetic or the key-set comparisons.",
   "trusts go/ssa and the rule tables in internal/rules/c15.go; informer handlers are exempt from the write-set rule because they replay objects the API server already admitted",
   "DESIGN.md §4 C15")
+
+claim("C16",
+  "custom SSA rules: must-lockset over counter fields with requirement propagation, check-then-act atomicity rule (transitive read/write sites under one mutex), dominating-guard rules for dry-run and mark-after-persist, value-flow table of the limit filters into the retryable chain, sibling comparison of phase contexts",
+  "Decides structural necessary conditions of C16 for every schedule: eviction counters are only touched under their lock; in PodEvictor.Evict and evictorProxy.Evict the cap check and the increment are inside one critical section; the API call needs dry-run off and no refusal follows a count; the four migration limits sit only in the retryable chain under their own gates; only the non-retryable chain fails a job; the duplicate-job filter runs first; all four limit filters count the same phases; a job is marked passed only after a successful update; arbitration state is accessed under its mutex. It does not decide the per-round counts.",
+  "trusts go/ssa, the interface-dispatch resolution by types.Implements over repo types, and the rule tables in internal/rules/c16.go",
+  "DESIGN.md §4 C16")
